@@ -24,7 +24,7 @@ M = [
  ("m-C14-keep-complement","C14","src/geom3/mesh/filtering.rs","                self.indices.retain(|i| check_set.contains(i));","                self.indices.retain(|i| !check_set.contains(i));","Keep retains the complement"),
  ("m-C15-radius-not-squared","C15","src/common/kd_tree.rs","radius * radius);","radius);","radius query passes the radius where its square is expected"),
  ("m-C15-partial-index","C15","src/common/kd_tree.rs","        (self.index_map[i], d)","        (i, d)","partial tree forgets the index map in nearest_one"),
- ("m-C17-between-dup-end","C17","src/func1/series1.rs","        if xs[xs.len() - 1] < x1 {","        if xs[xs.len() - 1] <= x1 {","slice repeats its end abscissa"),
+ ("m-C17-between-dup-end","C17","src/func1/series1.rs","        if xs[xs.len() - 1] < x1 {","        if xs[xs.len() - 1] <= x1 {","slice repeats its end abscissa with the same ordinate (abscissae stay ascending in the library's non-strict sense, every evaluation unchanged) -- control mutant, property-preserving"),
  ("m-C10-tmax-half","C10","src/airfoil/orientation.rs","        if fraction > 0.5 {","        if fraction < 0.5 {","TMaxFwd reverses the camber line when the thickest station is already forward"),
  ("m-C10-order-faces","C10","src/airfoil.rs","        if a_m > b_m {","        if a_m < b_m {","upper and lower surfaces swapped"),
  ("m-C16-min-uses-max","C16","src/metrology/surface_deviation.rs","            || deviation.deviation < self.values[self.min_index.unwrap()].deviation","            || deviation.deviation < self.values[self.max_index.unwrap()].deviation","push compares the new value with the maximum when updating the minimum"),
